@@ -7,7 +7,7 @@ import itertools
 import socket as _real
 
 from clientlib import run_call
-from common import Ctx, import_repo
+from common import FakeClock, Ctx, import_repo
 from fakesock import FakeSocketModule, World, mk_exc
 from refserver import RefServer
 
@@ -397,7 +397,7 @@ def main(argv):
     from pymemcache.client.hash import HashClient
     pclock = [1000.0]
     real_pt = pool_mod.time
-    pool_mod.time = type("T", (), {"time": staticmethod(lambda: pclock[0])})
+    pool_mod.time = FakeClock(lambda: pclock[0])
     try:
         for wkind in ("Pooled", "Pooled1", "HashPooled"):
             for idle in (0, 30):
